@@ -4,7 +4,7 @@ from __future__ import annotations
 ID = "C40"
 BOUNDS = {
     "quick": "one step from an arbitrary valid TravelCalculator state: last known position and target from {0, 37, 100} (all 9 pairs), every travel direction (UP, DOWN, STOPPED), confirmed flag where last == target, travel times (down, up) = (25, 20) s and (0.5, 0.5) s; the stored timestamp is 1000.0 s; every time.time() call is its own symbolic reading t = 1000 + k * 2^-10 s (k integer, 0 <= k < 2^16, i.e. up to 64 s later), non-decreasing across calls, optionally forced equal to the previous reading; steps: current_position(), two successive current_position() calls whose readings are equal or one tick (2^-10 s) apart (monotonicity for all pairs of readings follows by induction over ticks), stop(), start_travel(p), update_position(p), set_position(p) with p from the same set, each followed by current_position()/is_traveling(); Cover.current_position() delegates to the same calculator",
-    "thorough": "as quick plus travel times (600, 600) with k < 2^21, positions {0, 1, 37, 100} and the timestamp 1.75e9 s; plus a full-width hunt where readings are arbitrary finite doubles in [0, 2^31] (counterexamples only, 120 s per query)",
+    "thorough": "as quick plus travel times (600, 600) with k < 2^21 (query and stop steps), positions {0, 1, 37, 100} and the timestamp 1.75e9 s; plus a full-width hunt where readings are arbitrary finite doubles in [0, 2^31] (counterexamples only, 120 s per query)",
 }
 OUTSIDE = "clock readings that are not multiples of 2^-10 s or more than 64 s (2048 s for 600 s travel times) after the timestamp; other timestamps; positions outside the stated set; non-monotonic clocks; Cover's periodic update and auto-stop tasks"
 ASSUMPTIONS = [
@@ -27,7 +27,7 @@ def jobs(tier, seed):
     out = []
     for tt in tts:
         for last in positions(tier):
-            for step in (("query", "query2", "stop", "start", "report", "setpos") if tt != (0.5, 0.5) or tier != "quick" else ("query", "stop")):
+            for step in (("query", "query2", "stop", "start", "report", "setpos") if tt == (25, 20) else ("query", "stop")):
                 if step == "query2":
                     out += [dict(name=f"query2-tt{tt[0]}-last{last}-target{tg}-{'stopped' if stopped else 'moving'}", step=step, tt=tt, last=last, only_target=tg, only_stopped=stopped, tier=tier, mode="tick", cost=100)
                             for tg in positions(tier) if tg != last for stopped in (False, True)]
